@@ -199,6 +199,9 @@ class ResourceClass(object):
     def _save(context, id, name, updates):
         db_rc = context.session.query(models.ResourceClass).filter_by(
             id=id).first()
+        if db_rc is None:
+            # Deleted since the caller looked it up.
+            raise exception.ResourceClassNotFound(resource_class=name)
         db_rc.update(updates)
         try:
             db_rc.save(context.session)
